@@ -25,7 +25,7 @@ func init() {
 		if !ok1 || !ok2 {
 			return fmt.Errorf("root: bad integers")
 		}
-		emitRootLine(e, v, deg, a[2], radicand{"replay", num, den, 0}, k, 1)
+		emitRootLine(e, v, deg, a[2], radicand{"replay", num, den, 0, false}, k, 1)
 		return nil
 	}
 }
